@@ -10,7 +10,12 @@ N = 4
 
 def shape_varying(t):
     k = t["k"]
-    return k in ("map", "opt", "vec", "union", "rec", "ndarr", "dynarr") or (k == "prim" and t["p"] == "string")
+    if k in ("map", "opt", "vec", "union", "rec", "ndarr", "dynarr") or (k == "prim" and t["p"] == "string"):
+        return True
+    # fixed-size items that the runtimes copy with memcpy / as raw buffers (batch reads use a different code path for them)
+    if k == "prim" and t["p"] in ("float32", "float64", "complexfloat64", "complexfloat32", "int8", "uint8"):
+        return True
+    return k in ("farr", "fvec") and t["t"]["k"] == "prim" and t["t"]["p"] in ("float32", "float64", "int8", "complexfloat32")
 
 
 class StreamPackage(we.Package):
@@ -56,7 +61,9 @@ def main():
              and len(x[1]) >= 2 and sum(1 for q in x[1] if q["jsonable"]) >= 2]
     c.rng.shuffle(types)
     if not thorough:
-        types = types[:96]
+        fixed = [x for x in types if x[0]["k"] in ("prim", "farr", "fvec")]
+        types = fixed[:24] + [x for x in types if x not in fixed][:72]
+        c.rng.shuffle(types)
     pkgs = [StreamPackage(i, types[j:j + 16], sc) for i, j in enumerate(range(0, len(types), 16))]
 
     def prep(p):
@@ -154,6 +161,31 @@ def main():
             c.violation("C17:%s:%s" % (kind, shape), bad,
                         {"package_model": open(os.path.join(p.root, "model", "model.yml")).read(), "kind": kind, "behaviour": b,
                          "input_hex": open(infile, "rb").read().hex()[-8000:] if infile and os.path.exists(infile) else None})
+    # ---- long streams of arrays (WireBig.tla): items kept by the consumer must stay what they were when delivered,
+    #      across buffer refills (Python collects the whole stream into a list; C++ reads large batches)
+    pads = [0, 5] if not thorough else [0, 3, 5, 8]
+    bigrecs = pmap(we.export_big, pads, jobs=4)
+    bp = we.BigPackage(sc, bigrecs[0])
+    bgood, _ = we.prepare([bp], yardl, home)
+    if not bgood:
+        c.note("large-stream package unusable: %s" % (bp.problem or "")[:400])
+    else:
+        def bigwork(args):
+            pad, recs = args
+            vals = bp.vals_for(recs)
+            out = []
+            for mode in ("list", "items", "copy"):
+                out.append(("py-big-" + mode, pad, we.leg(bp, "py", "binary", "binary", vals, "big-py-%d-%s" % (pad, mode), block=[7, 1, None][pad % 3], mode=mode)))
+            for cap in (1, 7, 64):
+                out.append(("cpp-big-cap%d" % cap, pad, we.leg(bp, "cpp", "binary", "binary", vals, "big-cpp-%d-%d" % (pad, cap), block=[7, 1, None][pad % 3], bufsize=cap)))
+            return out
+        for kind, pad, rr in [x for lst in pmap(bigwork, list(zip(pads, bigrecs)), jobs=4) for x in lst]:
+            c.cov["traces_validated_against_impl"] += 1
+            c.count((kind, pad), nontrivial=True)
+            if not rr["ok"]:
+                st = we.blame_step(bp, rr["msg"])
+                c.violation("C17:%s:%s" % (kind, st["name"] if st else "?"), rr["msg"], {"pad": pad, "kind": kind, "stderr": rr.get("stderr"),
+                                                                                       "values": "spec/wire/WireBig.tla with VERIF_PAD=%d" % pad})
     for b in behaviours[:3]:
         c.sample({"written_blocks": b["wire"], "reader_calls": b["calls"]})
     c.cov["packages"] = len(good)
